@@ -798,6 +798,65 @@ def normalise(hist):
     return out
 
 
+def features(hist, world="multi"):
+    """shapes of a history that the end-to-end oracles need to see (computed from the actions and the model's
+    observations only); used to make the capped selection cover every shape"""
+    W = WORLDS[world]
+    f = set()
+    proj = []
+    changed = {"dev": True, "rel": True}       # project changed since the last build of the mode
+    built_src = {"dev": set(), "rel": set()}   # recipes / checkout variants with a checkout workspace
+    built_dir = {}                              # develop directory -> key it was built for
+    db = []
+    srcv = {}
+    for a in hist:
+        k = a["a"]
+        if k == "ProjectChange":
+            proj, srcv = a["proj"], a["srcv"]
+            changed = {"dev": True, "rel": True}
+        elif k == "Prime":
+            db = a["db"]
+        elif k in ("BuildDev", "BuildRel"):
+            m = "dev" if k == "BuildDev" else "rel"
+            if proj:
+                f.add("build-after-change:" + m if changed[m] else "rebuild:" + m)
+                changed[m] = False
+                for p, v in proj:
+                    built_src[m].add((W[p], srcv[W[p]]) if m == "rel" else W[p])
+                if m == "dev":
+                    for key, d in db:
+                        d = tuple(d)
+                        if d in built_dir and built_dir[d] != key:
+                            f.add("reuse-of-built-dir:" + d[1])
+                        built_dir[d] = key
+        elif k == "Clean":
+            m = a["mode"]
+            cur = {(W[p], srcv[W[p]]) if m == "rel" else W[p] for p, v in proj}
+            garbage_src = built_src[m] - cur
+            kinds = {d[1] for d in a["del"]}
+            if a["dry"]:
+                if a["del"] or garbage_src:
+                    f.add("dry-run-with-garbage:" + m)
+            else:
+                if "build" in kinds:
+                    f.add("clean-deletes-build:" + m)
+                    for d in a["del"]:
+                        built_dir.pop(tuple(d), None)
+                if garbage_src and not a["src"]:
+                    f.add("clean-without-s-garbage-src:" + m)
+                if garbage_src and a["src"]:
+                    f.add("clean-s-deletes-src:" + m)
+                    built_src[m] &= cur
+                if not changed["dev"] or not changed["rel"]:
+                    f.add("clean-then-quiet-rebuild")
+                # identical packages from different recipes, built and up to date, while clean runs
+                el = {(p, v) for p, v in proj}
+                if not changed[m] and any(W[p] != W[q] and v == w and srcv[W[p]] == srcv[W[q]] and PCLASS.get(p) == PCLASS.get(q)
+                                          for p, v in el for q, w in el):
+                    f.add("clean-with-twins-built:" + m)
+    return f
+
+
 def interest(hist):
     """prefer histories that build, change, and clean in an order that can matter"""
     score, built, changed = 0, False, True
@@ -809,7 +868,34 @@ def interest(hist):
             changed = True
         elif a["a"] == "Clean" and built:
             score += 1 if a["dry"] else 2
-    return score
+    return score + 2 * len(features(hist))
+
+
+def select(cand, cap, rng, per_feature):
+    """capped selection: every feature `per_feature` times (if available), then the most interesting, then random"""
+    cand = list(cand)
+    rng.shuffle(cand)
+    cand.sort(key=lambda h: -interest(h))
+    feats = [features(h) for h in cand]
+    need = {}
+    for fs in feats:
+        for x in fs:
+            need[x] = per_feature
+    chosen = []
+    for j, fs in enumerate(feats):
+        if len(chosen) >= cap:
+            break
+        if any(need.get(x, 0) > 0 for x in fs):
+            chosen.append(j)
+            for x in fs:
+                need[x] = need.get(x, 0) - 1
+    cs = set(chosen)
+    rest = [j for j in range(len(cand)) if j not in cs]
+    half = max(0, (cap - len(chosen)) // 2)
+    chosen += rest[:half]
+    rest = rest[half:]
+    chosen += rng.sample(rest, min(len(rest), max(0, cap - len(chosen))))
+    return [cand[j] for j in chosen]
 
 
 def main():
@@ -817,10 +903,10 @@ def main():
     rep = evidence.Report(PROP, a.tier, a.seed)
     quick = a.tier == "quick"
     rep.rule = ("behaviours = TLC -simulate runs of DevDirs (project changes, primes, dev/release builds, cleans); "
-                "level B-i: every behaviour replayed into the real DevelopDirOracle; level B-ii: a seeded selection replayed with "
-                "real bob invocations; non-trivial = distinct shapes exercised on the real code (kept+new numbering, reuse of "
-                "a freed directory, shared keys, twins, deletions by kind/mode, quiet rebuild after clean); evaluations = real "
-                "oracle refreshes + real bob invocations")
+                "level B-i: behaviours replayed into the real DevelopDirOracle; level B-ii: a seeded, shape-covering selection "
+                "replayed with real bob invocations; non-trivial = distinct shapes exercised on the real code (kept+new numbering, "
+                "reuse of a freed directory, shared keys, twins, deletions by kind/mode, quiet rebuild after clean); evaluations = "
+                "real oracle refreshes + real bob invocations")
     rep.assumptions = ["a checkout step and a build/package step never have the same variant id (keys are tagged with the kind in the model)",
                        "no sandbox, no shared packages, no external developNamePersister plugin; full builds of all roots (no --no-deps / -b / -B)",
                        "clean is called with the same configuration (-c/-D) as the builds, as the manual demands",
@@ -859,7 +945,7 @@ def main():
           ["DevDirs_thorough.cfg", "DevDirs_num_thorough.cfg", "DevDirs_nested.cfg", "DevDirs_src.cfg", "DevDirs_stable_fixed.cfg"]
     cov_actions = ["ProjectChange", "Prime", "BuildDev", "BuildRel", "CleanDev", "CleanRel"]
     for cfg in (exh if "A" in stages else []):
-        res = tlc.run("DevDirs", cfgp(cfg), workers=tw, coverage=True, timeout=15000)
+        res = tlc.run("DevDirs", cfgp(cfg), workers=tw, coverage=True, timeout=30000)
         rep.add_tlc(res, cfg)
         if res.violated:
             rep.violation("model:" + res.violated, {"config": cfg, "cex": res.cex})
@@ -868,15 +954,15 @@ def main():
              ("ReachNumberedAround", "ReachReuse", "ReachSharedKey", "ReachTwins", "ReachCleanDeletesBuild",
               "ReachCleanDeletesSrc", "ReachCleanStaleOfCurrent", "ReachDrySkips")]
     small += [("DevDirs_stable.cfg", None)]
-    if "A" not in stages:
-        small = [("DevDirs_stable.cfg", None)]
     if not quick:
         small += [("DevDirs_weak_%s.cfg" % w, p) for w, p in
                   (("NumberBlind", "Injective"), ("RecipeKey", "Injective"), ("NoPrune", "EmptiedBeforeReuse"),
                    ("CleanInverted", "CleanOnlyGarbage"), ("DryDeletes", "DryRunDeletesNothing"), ("SrcUnprotected", "CleanOnlyGarbage"))]
+    if "A" not in stages:
+        small = [("DevDirs_stable.cfg", None)]
     par = max(1, min(4, tw // 4))
     with ThreadPoolExecutor(par) as ex:
-        results = list(ex.map(lambda c: tlc.run("DevDirs", cfgp(c[0]), workers=max(1, tw // par), timeout=6000), small))
+        results = list(ex.map(lambda c: tlc.run("DevDirs", cfgp(c[0]), workers=max(1, tw // par), timeout=10000), small))
     model_stable_violated = None
     for (cfg, want), res in zip(small, results):
         rep.add_tlc(res, cfg)
@@ -891,25 +977,28 @@ def main():
             raise tlc.TlcError("vacuity/self-test: %s gave %s, expected %s" % (cfg, res.violated, want))
 
     # ---------------- generation
-    gens = [("DevDirs_gen_dev.cfg", "multi", 2, 14), ("DevDirs_gen_num.cfg", "one", 4, 14), ("DevDirs_gen_nested.cfg", "nested", 2, 14),
-            ("DevDirs_gen.cfg", "multi", 3, 16)]
     # (every trace prints one history per successor of its last state: many histories share a prefix)
-    ntr = {"DevDirs_gen.cfg": 40 if quick else 500, "DevDirs_gen_dev.cfg": 10 if quick else 60,
-           "DevDirs_gen_num.cfg": 120 if quick else 900, "DevDirs_gen_nested.cfg": 100 if quick else 700}
-    with ThreadPoolExecutor(min(4, tw)) as ex:
-        gres = list(ex.map(lambda g: tlc.run("DevDirs", cfgp(g[0]), workers=1, simulate="num=%d" % ntr[g[0]],
-                                             depth=g[3], seed=a.seed + 1, timeout=15000), gens))
+    full_cfgs = ("DevDirs_gen.cfg", "DevDirs_gen_devmode.cfg", "DevDirs_gen_relmode.cfg")
+    gens = [("DevDirs_gen_dev.cfg", "multi", 2, 14, 10 if quick else 60), ("DevDirs_gen_num.cfg", "one", 4, 14, 120 if quick else 900),
+            ("DevDirs_gen_nested.cfg", "nested", 2, 14, 100 if quick else 700)]
+    for c in full_cfgs:
+        for k in range(1 if quick else 3):
+            gens.append((c, "multi", 3, 16, 40 if quick else 140))
+    with ThreadPoolExecutor(max(1, min(6, tw))) as ex:
+        gres = list(ex.map(lambda jg: tlc.run("DevDirs", cfgp(jg[1][0]), workers=1, simulate="num=%d" % jg[1][4], depth=jg[1][3],
+                                              seed=(a.seed + 1) * 100 + jg[0], timeout=30000), list(enumerate(gens))))
     tasks, seen = [], set()
     full = []
-    for (cfg, world, nv, depth), g in zip(gens, gres):
-        rep.extra.setdefault("behaviours_generated", {})[cfg] = len(g.printed)
+    for (cfg, world, nv, depth, num), g in zip(gens, gres):
+        bg = rep.extra.setdefault("behaviours_generated", {})
+        bg[cfg] = bg.get(cfg, 0) + len(g.printed)
         for h in g.printed:
             key = json.dumps([world, [[s[0], s[1]] for s in snapshots_of(h)]], sort_keys=True)
             if key not in seen and len(snapshots_of(h)) >= 2:
                 seen.add(key)
                 tasks.append((len(tasks), world, nv, h, cfg))
-        if cfg == "DevDirs_gen.cfg":
-            full = g.printed
+        if cfg in full_cfgs:
+            full += g.printed
     # ---------------- (B-i)
     rep.extra["oracle_histories_distinct"] = len(tasks)
     cap_i = int(os.environ.get("VF_C16_ORACLE", "0") or 0) or (1600 if quick else 12000)
@@ -924,7 +1013,7 @@ def main():
             l = by_cfg[w]
             tasks += rs.sample(l, min(len(l), cap_i // len(by_cfg)))
         tasks = [(i,) + t[1:] for i, t in enumerate(tasks)]
-    sig_seen = {}
+    sig_seen, bad_hist = {}, {}
     if "Bi" not in stages:
         tasks = []
     with mp.get_context("fork").Pool(WORKERS, initializer=_freeze) as pool:
@@ -935,6 +1024,9 @@ def main():
                 rep.nontriv("oracle:" + nt)
             for d in r["drift"][:3]:
                 rep.model_drift(d)
+            for sig in {x[0] for x in r["violations"]}:
+                k = "%s @ %s" % (sig, tasks[r["i"]][4])
+                bad_hist[k] = bad_hist.get(k, 0) + 1
             for sig, detail in r["violations"]:
                 sig_seen[sig] = sig_seen.get(sig, 0) + 1
                 if sig_seen[sig] <= 2:
@@ -943,10 +1035,12 @@ def main():
                 rep.sample({"level": "B-i", "world": tasks[r["i"]][1], "snapshots": [[s[0], s[1]] for s in snapshots_of(tasks[r["i"]][3])]})
     rep.extra["oracle_histories"] = len(tasks)
     rep.extra["oracle_violation_counts"] = dict(sig_seen)
-    if model_stable_violated and SIG_SHARED not in sig_seen:
-        rep.model_drift("the mechanism model violates Stable (shared key renamed after its first user) but no replayed history did on the real oracle")
-    if model_stable_violated is False and SIG_SHARED in sig_seen:
-        rep.model_drift("the real oracle moves shared keys but the mechanism model does not")
+    rep.extra["oracle_histories_violating"] = dict(bad_hist)
+    if "Bi" in stages:
+        if model_stable_violated and SIG_SHARED not in sig_seen:
+            rep.model_drift("the mechanism model violates Stable (shared key renamed after its first user) but no replayed history did on the real oracle")
+        if model_stable_violated is False and SIG_SHARED in sig_seen:
+            rep.model_drift("the real oracle moves shared keys but the mechanism model does not")
 
     # ---------------- (B-ii)
     rng = random.Random(a.seed)
@@ -958,11 +1052,14 @@ def main():
             continue
         seenp.add(key)
         cand.append(n)
-    rng.shuffle(cand)
-    cand.sort(key=lambda h: -interest(h))
-    cap = int(os.environ.get("VF_C16_E2E", "0") or 0) or (32 if quick else 480)
-    half = cap // 2
-    pick = cand[:half] + (rng.sample(cand[half:], min(cap - half, len(cand) - half)) if len(cand) > half else [])
+    rep.extra["e2e_candidates"] = len(cand)
+    cap = int(os.environ.get("VF_C16_E2E", "0") or 0) or (32 if quick else 400)
+    pick = select(cand, cap, rng, 3 if quick else 25)
+    fc = {}
+    for h in pick:
+        for x in features(h):
+            fc[x] = fc.get(x, 0) + 1
+    rep.extra["e2e_feature_counts"] = fc
     etasks = [(i, "multi", 3, h, a.seed) for i, h in enumerate(pick)] if "Bii" in stages else []
     rep.extra["e2e_histories"] = len(etasks)
     esig = {}
@@ -984,6 +1081,7 @@ def main():
                 rep.sample({"level": "B-ii", "shape": shape(pick[r["i"]]), "commands": r["log"][:40]})
     rep.extra["e2e_invocations"] = inv
     rep.extra["e2e_violation_counts"] = dict(esig)
+    rep.extra["nontrivial_keys"] = sorted(rep.nontrivial)
     if rep.drift:
         rep.level = "exploration"
     return rep.finish()
